@@ -100,7 +100,7 @@ func countNodes(b []byte) int {
 // memLimit bounds the address space of the driver process: a decoder that trusts a hostile size field dies with
 // "fatal error: out of memory" (recorded by the orchestrator as an abort of the behaviour) instead of zeroing gigabytes
 // per case until the run times out.
-const memLimit = 6 << 30
+const memLimit = 3 << 30
 
 func run(env *drive.Env) error {
 	logging.Verbosity(logging.LvlCrit)
